@@ -166,6 +166,13 @@ def _unary_ops(shape):
     for d in range(N):
         v = np.array(space.int_vector(shape[d], salt=d))
         ops.append(("ttv", "sptensor.ttv", (lambda v, d: lambda S: canon(S.ttv(v.copy(), dims=np.array([d]))))(v, d)))
+        for zpos in range(shape[d]):
+            vz = v.copy()
+            vz[zpos] = 0.0
+            ops.append(("ttv_zero", "sptensor.ttv", (lambda v, d: lambda S: canon(S.ttv(v.copy(), dims=np.array([d]))))(vz, d)))
+        Mz = np.array(space.int_matrix(2, shape[d], salt=d))
+        Mz[:, 0] = 0.0
+        ops.append(("ttm_zero", "sptensor.ttm", (lambda M, d: lambda S: canon(S.ttm(M.copy(), dims=np.array([d]))))(Mz, d)))
         M = np.array(space.int_matrix(2, shape[d], salt=d))
         ops.append(("ttm", "sptensor.ttm", (lambda M, d: lambda S: canon(S.ttm(M.copy(), dims=np.array([d]))))(M, d)))
         U = [np.array(space.int_matrix(shape[m], 2, salt=m)) for m in range(N)]
